@@ -92,7 +92,31 @@ func (st *State) assume(f string) {
 
 func (st *State) pcTerm() string { return and(st.pc...) }
 
+// sameLocs: two states can only be merged if every variable that holds a pointer to a
+// local (an interior location) holds the same one in both; otherwise they stay separate paths.
+func sameLocs(a, b *State) bool {
+	chk := func(x, y *State) bool {
+		for k, va := range x.vars {
+			if va == nil || va.Loc == nil {
+				continue
+			}
+			vb, ok := y.vars[k]
+			if !ok || vb == nil || vb.Loc == nil {
+				return false
+			}
+			if va.Loc.Heap != vb.Loc.Heap || va.Loc.Obj != vb.Loc.Obj || va.Loc.Ref != vb.Loc.Ref || strings.Join(va.Loc.Path, ".") != strings.Join(vb.Loc.Path, ".") {
+				return false
+			}
+		}
+		return true
+	}
+	return chk(a, b) && chk(b, a)
+}
+
 func sameDefers(a, b *State) bool {
+	if !sameLocs(a, b) {
+		return false
+	}
 	if len(a.defers) != len(b.defers) {
 		return false
 	}
